@@ -4,15 +4,18 @@ package mutating
 
 import (
 	"context"
+	"encoding/json"
 	"fmt"
 	"math/rand"
 	"reflect"
 	"testing"
 
+	jsonpatch "github.com/evanphx/json-patch"
 	admissionv1 "k8s.io/api/admission/v1"
 	corev1 "k8s.io/api/core/v1"
 	schedulingv1 "k8s.io/api/scheduling/v1"
 	metav1 "k8s.io/apimachinery/pkg/apis/meta/v1"
+	"k8s.io/apimachinery/pkg/runtime"
 	"k8s.io/apimachinery/pkg/util/intstr"
 	"k8s.io/client-go/kubernetes/scheme"
 	"sigs.k8s.io/controller-runtime/pkg/client"
@@ -87,13 +90,74 @@ func (d *vtC13Dec) profile() (*configv1alpha1.ClusterColocationProfile, *schedul
 		kp := int32(v)
 		p.Spec.KoordinatorPriority = &kp
 	}
+	// spec.annotations: an "absent" value is the empty string
+	if n := d.count(); n > 0 {
+		p.Spec.Annotations = map[string]string{}
+		for i := 0; i < n; i++ {
+			k := d.next()
+			v, _ := d.annValue()
+			p.Spec.Annotations[vtC13AnnKey(k)] = v
+		}
+	}
+	if n := d.count(); n > 0 {
+		p.Spec.AnnotationKeysMapping = map[string]string{}
+		for i := 0; i < n; i++ {
+			o, nw := d.next(), d.next()
+			p.Spec.AnnotationKeysMapping[vtC13AnnKey(o)] = vtC13AnnKey(nw)
+		}
+	}
 	return p, pc
 }
 
+// vtC13mHandle drives the production entry point PodMutatingHandler.Handle with the pod as the
+// API server sends it (raw JSON in an AdmissionReview) and applies the returned JSON patch to
+// that raw object, as the API server does.  ok=false: the admission was refused.
+func vtC13mHandle(h *PodMutatingHandler, op admissionv1.Operation, pod *corev1.Pod) (*corev1.Pod, bool) {
+	p := pod.DeepCopy()
+	p.TypeMeta = metav1.TypeMeta{APIVersion: "v1", Kind: "Pod"}
+	raw, err := json.Marshal(p)
+	if err != nil {
+		panic(err)
+	}
+	req := admission.Request{AdmissionRequest: admissionv1.AdmissionRequest{
+		Resource:  metav1.GroupVersionResource{Group: corev1.SchemeGroupVersion.Group, Version: corev1.SchemeGroupVersion.Version, Resource: "pods"},
+		Operation: op, Namespace: pod.Namespace, Name: pod.Name,
+		Object: runtime.RawExtension{Raw: raw},
+	}}
+	if op == admissionv1.Update {
+		req.OldObject = runtime.RawExtension{Raw: raw}
+	}
+	resp := h.Handle(context.TODO(), req)
+	if !resp.Allowed {
+		return nil, false
+	}
+	out := raw
+	if len(resp.Patches) > 0 {
+		pb, err := json.Marshal(resp.Patches)
+		if err != nil {
+			panic(err)
+		}
+		patch, err := jsonpatch.DecodePatch(pb)
+		if err != nil {
+			panic(err)
+		}
+		if out, err = patch.Apply(raw); err != nil {
+			panic(err)
+		}
+	}
+	res := &corev1.Pod{}
+	if err := json.Unmarshal(out, res); err != nil {
+		panic(err)
+	}
+	return res, true
+}
+
 // input:  env profiles pod   (coq/C13/Codec.v dec_mutate)
-// observable: up to three length-prefixed blocks (Codec.v run_mutate): Create; Update on the
-// result; Create on the result.  Each admission = the two mutators of the property in the
-// order handleCreate/handleUpdate call them.
+// observable: length-prefixed blocks (Codec.v run_mutate):
+//   1 Create (the two mutators of the property called in the order of handleCreate);
+//   2 Create through PodMutatingHandler.Handle (decoder, all mutators, JSON patch applied);
+//   and, when 1 succeeded: 3 Update on the result of 1 (extendedResourceSpecMutatingPod);
+//   4 Create on the result of 1;  5 Update through Handle on the result of 2.
 func vtC13mExec(in []int64) []int64 {
 	if len(in) == 0 || in[0] != 102 { // not an input of this stream
 		return []int64{-1}
@@ -133,7 +197,8 @@ func vtC13mExec(in []int64) []int64 {
 	randIntnFn = func(int) int { return rnd }
 	defer func() { randIntnFn = origRand }()
 
-	h := &PodMutatingHandler{Client: fake.NewClientBuilder().WithScheme(scheme.Scheme).WithObjects(objs...).Build()}
+	h := &PodMutatingHandler{Client: fake.NewClientBuilder().WithScheme(scheme.Scheme).WithObjects(objs...).Build(),
+		Decoder: admission.NewDecoder(scheme.Scheme)}
 
 	admit := func(op admissionv1.Operation, pod *corev1.Pod) (block []int64, ok bool) {
 		req := admission.Request{AdmissionRequest: admissionv1.AdmissionRequest{Operation: op}}
@@ -163,9 +228,20 @@ func vtC13mExec(in []int64) []int64 {
 		return append(obs, block...)
 	}
 
+	handleBlock := func(op admissionv1.Operation, pod *corev1.Pod) ([]int64, *corev1.Pod) {
+		res, ok := vtC13mHandle(h, op, pod)
+		if !ok {
+			return []int64{1}, nil
+		}
+		return append([]int64{0, 0, 0}, vtC13EncPod(res)...), res
+	}
+
 	var obs []int64
+	submitted := pod.DeepCopy()
 	b1, ok := admit(admissionv1.Create, pod)
 	obs = emit(obs, b1)
+	bh, ph := handleBlock(admissionv1.Create, submitted)
+	obs = emit(obs, bh)
 	if !ok {
 		return obs
 	}
@@ -173,6 +249,11 @@ func vtC13mExec(in []int64) []int64 {
 	obs = emit(obs, b2)
 	b3, _ := admit(admissionv1.Create, vtC13RoundTrip(pod))
 	obs = emit(obs, b3)
+	bu := bh
+	if ph != nil {
+		bu, _ = handleBlock(admissionv1.Update, ph)
+	}
+	obs = emit(obs, bu)
 	return obs
 }
 
@@ -297,6 +378,19 @@ func vtC13GenProfile(r *rand.Rand, name int, tier string, clean bool) []int64 {
 	} else {
 		out = append(out, 0, 0)
 	}
+	// annotations: at most one entry; the summary key itself or another key
+	if !clean && r.Intn(8) == 0 {
+		out = append(out, 1, []int64{0, 0, 5, 6}[r.Intn(4)])
+		out = append(out, vtC13GenAnnValue(r, 8)...)
+	} else {
+		out = append(out, 0)
+	}
+	// annotationKeysMapping: at most one entry (Go iterates the map in random order)
+	if !clean && r.Intn(10) == 0 {
+		out = append(out, 1, []int64{0, 5, 6}[r.Intn(3)], []int64{0, 0, 5, 6}[r.Intn(4)])
+	} else {
+		out = append(out, 0)
+	}
 	return out
 }
 
@@ -315,7 +409,11 @@ func vtC13mGen(r *rand.Rand, i int) (string, []int64) {
 			in = append(in, 0)
 		}
 	}
-	in = append(in, int64(r.Intn(100)), vtB(r.Intn(25) == 0), vtB(r.Intn(25) == 0))
+	rnd := int64(r.Intn(100))
+	if r.Intn(2) == 0 { // around the probabilities the profiles use (30, 50, 70, 99)
+		rnd = []int64{29, 30, 31, 49, 50, 51, 69, 70, 71, 98, 99, 0}[r.Intn(12)]
+	}
+	in = append(in, rnd, vtB(r.Intn(25) == 0), vtB(r.Intn(25) == 0))
 
 	tier := ""
 	qos, class := "-", "-"
